@@ -308,10 +308,11 @@ class CSSImportRule(cssrule.CSSRule):
                 # use cwd instead
                 parentHref = cssutils.helper.path2url(os.getcwd()) + '/'
 
-            fullhref = urllib.parse.urljoin(parentHref, self.href)
-
             # all possible exceptions are ignored
             try:
+                # (a malformed URL raises ValueError)
+                fullhref = urllib.parse.urljoin(parentHref, self.href)
+
                 # a sheet importing itself or a sheet it is imported from
                 # would never end
                 sheet = self.parentStyleSheet
